@@ -1,5 +1,1284 @@
-//! stream `idx` (stub; replaced by its builder)
-pub fn generate(_seed: u64, _cases: usize, _out: &mut Vec<String>) {}
-pub fn run(_toks: &[&str]) -> String {
-    "bad-op".to_string()
+//! Stream `idx` — the secondary index structures of grafeo-core:
+//! `HashIndex`, `BTreeIndex` (i64 and OrderedFloat keys), `TrieIndex` / `TrieIterator` / `LeapfrogJoin`.
+//!
+//! Every op line is self-contained (stateless stream).
+//!   hash|bt|btf <prog>      prog = `-` | op{,op}
+//!        i<k>:<v> insert | r<k> remove | g<k> get | c<k> contains | l len | e is_empty | x clear
+//!        bt/btf only: m min | M max | R<lo>_<hi> range, bound = u | i<k> | e<k>
+//!        result: per-op results joined by `,` then `|` then the final dump `k:v;k:v`
+//!   trie <inserts> <queries>
+//!   lf <lists> <prog>
+//!   lf2 <tries>
+#![allow(unused)]
+use crate::util;
+use crate::util::Rng;
+use grafeo_common::types::{EdgeId, NodeId};
+use grafeo_core::index::btree::OrderedFloat;
+use grafeo_core::index::trie::{LeapfrogJoin, TrieIndex, TrieIterator};
+use grafeo_core::index::{BTreeIndex, HashIndex};
+use std::collections::BTreeMap;
+use std::ops::Bound;
+use std::panic::{AssertUnwindSafe, catch_unwind};
+
+// ───────────────────────── strict scalar parsing ─────────────────────────
+
+fn p_u64(s: &str) -> Option<u64> {
+    if s.is_empty() || !s.bytes().all(|b| b.is_ascii_digit()) {
+        return None;
+    }
+    s.parse().ok()
+}
+
+fn p_i64(s: &str) -> Option<i64> {
+    let body = s.strip_prefix('-').unwrap_or(s);
+    if body.is_empty() || !body.bytes().all(|b| b.is_ascii_digit()) {
+        return None;
+    }
+    s.parse().ok()
+}
+
+/// `` → empty path, else node ids joined by `.`
+fn p_path(s: &str) -> Option<Vec<NodeId>> {
+    if s.is_empty() {
+        return Some(vec![]);
+    }
+    s.split('.').map(|t| p_u64(t).map(NodeId)).collect()
+}
+
+// ───────────────────────── key abstraction ─────────────────────────
+
+trait Key: Clone {
+    fn parse(s: &str) -> Option<Self>;
+    fn show(&self) -> String;
+}
+
+impl Key for u64 {
+    fn parse(s: &str) -> Option<Self> {
+        p_u64(s)
+    }
+    fn show(&self) -> String {
+        self.to_string()
+    }
+}
+
+impl Key for i64 {
+    fn parse(s: &str) -> Option<Self> {
+        p_i64(s)
+    }
+    fn show(&self) -> String {
+        self.to_string()
+    }
+}
+
+impl Key for OrderedFloat {
+    fn parse(s: &str) -> Option<Self> {
+        p_u64(s).map(|b| OrderedFloat(f64::from_bits(b)))
+    }
+    fn show(&self) -> String {
+        canon(self.0.to_bits()).to_string()
+    }
+}
+
+/// Printed spelling of a float key: every NaN → the canonical quiet NaN, −0 → +0
+/// (the keys `OrderedFloat::cmp` cannot tell apart print alike).
+fn canon(b: u64) -> u64 {
+    if f64::from_bits(b).is_nan() {
+        0x7ff8_0000_0000_0000
+    } else if b == 0x8000_0000_0000_0000 {
+        0
+    } else {
+        b
+    }
+}
+
+#[derive(Clone)]
+enum Bd<K> {
+    U,
+    I(K),
+    E(K),
+}
+
+#[derive(Clone)]
+enum Op<K> {
+    Ins(K, u64),
+    Rem(K),
+    Get(K),
+    Has(K),
+    Len,
+    Empty,
+    Clear,
+    Min,
+    Max,
+    Range(Bd<K>, Bd<K>),
+}
+
+fn p_bound<K: Key>(s: &str) -> Option<Bd<K>> {
+    if s == "u" {
+        return Some(Bd::U);
+    }
+    if let Some(k) = s.strip_prefix('i') {
+        return K::parse(k).map(Bd::I);
+    }
+    if let Some(k) = s.strip_prefix('e') {
+        return K::parse(k).map(Bd::E);
+    }
+    None
+}
+
+fn p_op<K: Key>(s: &str, ordered: bool) -> Option<Op<K>> {
+    match s {
+        "l" => return Some(Op::Len),
+        "e" => return Some(Op::Empty),
+        "x" => return Some(Op::Clear),
+        "m" if ordered => return Some(Op::Min),
+        "M" if ordered => return Some(Op::Max),
+        _ => {}
+    }
+    let mut cs = s.chars();
+    let c = cs.next()?;
+    let rest = cs.as_str();
+    match c {
+        'i' => {
+            let (k, v) = rest.split_once(':')?;
+            Some(Op::Ins(K::parse(k)?, p_u64(v)?))
+        }
+        'r' => Some(Op::Rem(K::parse(rest)?)),
+        'g' => Some(Op::Get(K::parse(rest)?)),
+        'c' => Some(Op::Has(K::parse(rest)?)),
+        'R' if ordered => {
+            let (lo, hi) = rest.split_once('_')?;
+            Some(Op::Range(p_bound(lo)?, p_bound(hi)?))
+        }
+        _ => None,
+    }
+}
+
+fn p_prog<K: Key>(s: &str, ordered: bool) -> Option<Vec<Op<K>>> {
+    if s == "-" {
+        return Some(vec![]);
+    }
+    s.split(',').map(|t| p_op(t, ordered)).collect()
+}
+
+fn opt_v(v: Option<NodeId>) -> String {
+    match v {
+        None => "~".to_string(),
+        Some(n) => n.0.to_string(),
+    }
+}
+
+fn b01(b: bool) -> String {
+    if b { "1".to_string() } else { "0".to_string() }
+}
+
+// ───────────────────────── hash ─────────────────────────
+
+fn run_hash(prog: &str) -> String {
+    let ops: Vec<Op<u64>> = match p_prog(prog, false) {
+        Some(o) => o,
+        None => return "bad-op".to_string(),
+    };
+    util::guarded(move || {
+        let idx: HashIndex<NodeId, NodeId> = HashIndex::new();
+        let mut res: Vec<String> = Vec::new();
+        let mut keys: Vec<u64> = Vec::new();
+        for op in &ops {
+            let r = match op {
+                Op::Ins(k, v) => {
+                    keys.push(*k);
+                    opt_v(idx.insert(NodeId(*k), NodeId(*v)))
+                }
+                Op::Rem(k) => {
+                    keys.push(*k);
+                    opt_v(idx.remove(&NodeId(*k)))
+                }
+                Op::Get(k) => {
+                    keys.push(*k);
+                    opt_v(idx.get(&NodeId(*k)))
+                }
+                Op::Has(k) => {
+                    keys.push(*k);
+                    b01(idx.contains(&NodeId(*k)))
+                }
+                Op::Len => idx.len().to_string(),
+                Op::Empty => b01(idx.is_empty()),
+                Op::Clear => {
+                    idx.clear();
+                    ".".to_string()
+                }
+                Op::Min | Op::Max | Op::Range(..) => unreachable!(),
+            };
+            res.push(r);
+        }
+        keys.sort_unstable();
+        keys.dedup();
+        let mut dump: Vec<String> = Vec::new();
+        for k in keys {
+            if let Some(v) = idx.get(&NodeId(k)) {
+                dump.push(format!("{}:{}", k, v.0));
+            }
+        }
+        format!("{}|{}", res.join(","), dump.join(";"))
+    })
+}
+
+// ───────────────────────── btree ─────────────────────────
+
+fn do_range<K: Key + Ord>(idx: &BTreeIndex<K, NodeId>, lo: &Bd<K>, hi: &Bd<K>) -> Vec<(K, NodeId)> {
+    match (lo, hi) {
+        (Bd::I(a), Bd::E(b)) => idx.range(a.clone()..b.clone()),
+        (Bd::I(a), Bd::I(b)) => idx.range(a.clone()..=b.clone()),
+        (Bd::I(a), Bd::U) => idx.range(a.clone()..),
+        (Bd::U, Bd::E(b)) => idx.range(..b.clone()),
+        (Bd::U, Bd::I(b)) => idx.range(..=b.clone()),
+        (Bd::U, Bd::U) => idx.range(..),
+        (lo, hi) => {
+            let cv = |b: &Bd<K>| -> Bound<K> {
+                match b {
+                    Bd::U => Bound::Unbounded,
+                    Bd::I(k) => Bound::Included(k.clone()),
+                    Bd::E(k) => Bound::Excluded(k.clone()),
+                }
+            };
+            idx.range((cv(lo), cv(hi)))
+        }
+    }
+}
+
+fn show_entries<K: Key>(es: &[(K, NodeId)]) -> String {
+    es.iter().map(|(k, v)| format!("{}:{}", k.show(), v.0)).collect::<Vec<_>>().join(";")
+}
+
+fn show_opt_entry<K: Key>(e: Option<(K, NodeId)>) -> String {
+    match e {
+        None => "~".to_string(),
+        Some((k, v)) => format!("{}:{}", k.show(), v.0),
+    }
+}
+
+fn run_bt<K: Key + Ord>(prog: &str) -> String {
+    let ops: Vec<Op<K>> = match p_prog(prog, true) {
+        Some(o) => o,
+        None => return "bad-op".to_string(),
+    };
+    util::guarded(move || {
+        let idx: BTreeIndex<K, NodeId> = BTreeIndex::new();
+        let mut res: Vec<String> = Vec::new();
+        for op in &ops {
+            let r = match op {
+                Op::Ins(k, v) => opt_v(idx.insert(k.clone(), NodeId(*v))),
+                Op::Rem(k) => opt_v(idx.remove(k)),
+                Op::Get(k) => opt_v(idx.get(k)),
+                Op::Has(k) => b01(idx.contains(k)),
+                Op::Len => idx.len().to_string(),
+                Op::Empty => b01(idx.is_empty()),
+                Op::Clear => {
+                    idx.clear();
+                    ".".to_string()
+                }
+                Op::Min => show_opt_entry(idx.min()),
+                Op::Max => show_opt_entry(idx.max()),
+                Op::Range(lo, hi) => match catch_unwind(AssertUnwindSafe(|| do_range(&idx, lo, hi))) {
+                    Ok(es) => format!("[{}]", show_entries(&es)),
+                    Err(_) => "!".to_string(),
+                },
+            };
+            res.push(r);
+        }
+        let dump = idx.range(..);
+        format!("{}|{}", res.join(","), show_entries(&dump))
+    })
+}
+
+// ───────────────────────── trie ─────────────────────────
+
+enum TIns {
+    Path(Vec<NodeId>, u64),
+    Edge(u64, u64, u64),
+}
+
+fn p_tins(s: &str) -> Option<Vec<TIns>> {
+    if s == "-" {
+        return Some(vec![]);
+    }
+    s.split(';')
+        .map(|e| {
+            let (p, id) = e.split_once('=')?;
+            let id = p_u64(id)?;
+            if let Some(ab) = p.strip_prefix('E') {
+                let (a, b) = ab.split_once('.')?;
+                Some(TIns::Edge(p_u64(a)?, p_u64(b)?, id))
+            } else {
+                Some(TIns::Path(p_path(p)?, id))
+            }
+        })
+        .collect()
+}
+
+#[derive(Clone)]
+enum Step {
+    Next,
+    Seek(u64),
+    Key,
+    Valid,
+    Open,
+}
+
+enum TQ {
+    Len,
+    Empty,
+    Get(Vec<NodeId>),
+    Keys(Vec<NodeId>),
+    Walk(Vec<NodeId>, Vec<Step>),
+}
+
+fn p_steps(s: &str) -> Option<Vec<Step>> {
+    if s.is_empty() {
+        return Some(vec![]);
+    }
+    s.split('.')
+        .map(|t| match t {
+            "n" => Some(Step::Next),
+            "k" => Some(Step::Key),
+            "v" => Some(Step::Valid),
+            "o" => Some(Step::Open),
+            _ => t.strip_prefix('s').and_then(p_u64).map(Step::Seek),
+        })
+        .collect()
+}
+
+fn p_tq(s: &str) -> Option<TQ> {
+    match s {
+        "l" => return Some(TQ::Len),
+        "z" => return Some(TQ::Empty),
+        _ => {}
+    }
+    let mut cs = s.chars();
+    let c = cs.next()?;
+    let rest = cs.as_str();
+    match c {
+        'g' => Some(TQ::Get(p_path(rest)?)),
+        'k' => Some(TQ::Keys(p_path(rest)?)),
+        'w' => {
+            let (p, st) = rest.split_once('/')?;
+            Some(TQ::Walk(p_path(p)?, p_steps(st)?))
+        }
+        _ => None,
+    }
+}
+
+fn p_tqs(s: &str) -> Option<Vec<TQ>> {
+    if s == "-" {
+        return Some(vec![]);
+    }
+    s.split(';').map(p_tq).collect()
+}
+
+fn enum_iter(mut it: TrieIterator<'_>) -> String {
+    let mut ks: Vec<String> = Vec::new();
+    loop {
+        match it.key() {
+            Some(k) => ks.push(k.0.to_string()),
+            None => break,
+        }
+        if !it.next() {
+            break;
+        }
+    }
+    format!("[{}]", ks.join("."))
+}
+
+fn enum_join(j: &mut LeapfrogJoin<'_>) -> String {
+    let mut ks: Vec<String> = Vec::new();
+    loop {
+        match j.key() {
+            Some(k) => ks.push(k.0.to_string()),
+            None => break,
+        }
+        if !j.next() {
+            break;
+        }
+    }
+    format!("[{}]", ks.join("."))
+}
+
+fn run_trie(ins: &str, qs: &str) -> String {
+    let ins = match p_tins(ins) {
+        Some(x) => x,
+        None => return "bad-op".to_string(),
+    };
+    let qs = match p_tqs(qs) {
+        Some(x) => x,
+        None => return "bad-op".to_string(),
+    };
+    util::guarded(move || {
+        let mut trie = TrieIndex::new();
+        for e in &ins {
+            match e {
+                TIns::Path(p, id) => trie.insert(p, EdgeId(*id)),
+                TIns::Edge(a, b, id) => trie.insert_edge(NodeId(*a), NodeId(*b), EdgeId(*id)),
+            }
+        }
+        if qs.is_empty() {
+            return "-".to_string();
+        }
+        let mut res: Vec<String> = Vec::new();
+        for q in &qs {
+            let r = match q {
+                TQ::Len => trie.len().to_string(),
+                TQ::Empty => b01(trie.is_empty()),
+                TQ::Get(p) => match trie.get(p) {
+                    None => "~".to_string(),
+                    Some(es) => es.iter().map(|e| e.0.to_string()).collect::<Vec<_>>().join("."),
+                },
+                TQ::Keys(p) => {
+                    let it = if p.is_empty() { Some(trie.iter()) } else { trie.iter_at(p) };
+                    match it {
+                        None => "~".to_string(),
+                        Some(it) => enum_iter(it),
+                    }
+                }
+                TQ::Walk(p, steps) => match trie.iter_at(p) {
+                    None => "~".to_string(),
+                    Some(mut it) => {
+                        let mut rs: Vec<String> = Vec::new();
+                        for st in steps {
+                            match st {
+                                Step::Next => rs.push(b01(it.next())),
+                                Step::Seek(t) => rs.push(b01(it.seek(NodeId(*t)))),
+                                Step::Key => rs.push(match it.key() {
+                                    None => "~".to_string(),
+                                    Some(k) => k.0.to_string(),
+                                }),
+                                Step::Valid => rs.push(b01(it.is_valid())),
+                                Step::Open => match it.open() {
+                                    Some(ch) => {
+                                        it = ch;
+                                        rs.push("1".to_string());
+                                    }
+                                    None => {
+                                        rs.push("~".to_string());
+                                        break;
+                                    }
+                                },
+                            }
+                        }
+                        format!("[{}]", rs.join("."))
+                    }
+                },
+            };
+            res.push(r);
+        }
+        res.join(";")
+    })
+}
+
+// ───────────────────────── leapfrog ─────────────────────────
+
+fn p_lists(s: &str) -> Option<Vec<Vec<u64>>> {
+    if s == "none" {
+        return Some(vec![]);
+    }
+    s.split(';')
+        .map(|l| {
+            if l == "-" {
+                Some(vec![])
+            } else {
+                l.split(',').map(p_u64).collect::<Option<Vec<u64>>>()
+            }
+        })
+        .collect()
+}
+
+fn run_lf(lists: &str, prog: &str) -> String {
+    let lists = match p_lists(lists) {
+        Some(x) => x,
+        None => return "bad-op".to_string(),
+    };
+    if prog.is_empty() || !(prog == "a" || prog.bytes().all(|b| b == b'k' || b == b'n')) {
+        return "bad-op".to_string();
+    }
+    let prog = prog.to_string();
+    util::guarded(move || {
+        let mut tries: Vec<TrieIndex> = Vec::new();
+        for l in &lists {
+            let mut t = TrieIndex::new();
+            for (j, k) in l.iter().enumerate() {
+                t.insert(&[NodeId(*k)], EdgeId(j as u64));
+            }
+            tries.push(t);
+        }
+        let iters: Vec<TrieIterator<'_>> = tries.iter().map(|t| t.iter()).collect();
+        let mut j = LeapfrogJoin::new(iters);
+        if prog == "a" {
+            return enum_join(&mut j);
+        }
+        let mut rs: Vec<String> = Vec::new();
+        for c in prog.bytes() {
+            if c == b'k' {
+                rs.push(match j.key() {
+                    None => "~".to_string(),
+                    Some(k) => k.0.to_string(),
+                });
+            } else {
+                rs.push(b01(j.next()));
+            }
+        }
+        rs.join(".")
+    })
+}
+
+fn p_lf2(s: &str) -> Option<Vec<Vec<(u64, u64)>>> {
+    s.split('|')
+        .map(|t| {
+            if t == "-" {
+                Some(vec![])
+            } else {
+                t.split(';')
+                    .map(|e| {
+                        let (a, b) = e.split_once('.')?;
+                        Some((p_u64(a)?, p_u64(b)?))
+                    })
+                    .collect::<Option<Vec<(u64, u64)>>>()
+            }
+        })
+        .collect()
+}
+
+fn run_lf2(s: &str) -> String {
+    let specs = match p_lf2(s) {
+        Some(x) => x,
+        None => return "bad-op".to_string(),
+    };
+    util::guarded(move || {
+        let mut tries: Vec<TrieIndex> = Vec::new();
+        for es in &specs {
+            let mut t = TrieIndex::new();
+            for (i, (a, b)) in es.iter().enumerate() {
+                t.insert_edge(NodeId(*a), NodeId(*b), EdgeId(i as u64));
+            }
+            tries.push(t);
+        }
+        let iters: Vec<TrieIterator<'_>> = tries.iter().map(|t| t.iter()).collect();
+        let mut j = LeapfrogJoin::new(iters);
+        let mut res: Vec<String> = Vec::new();
+        loop {
+            match j.key() {
+                Some(k) => match j.open() {
+                    Some(children) => {
+                        let mut inner = LeapfrogJoin::new(children);
+                        res.push(format!("{}:{}", k.0, enum_join(&mut inner)));
+                    }
+                    None => res.push(format!("{}:~", k.0)),
+                },
+                None => break,
+            }
+            if !j.next() {
+                break;
+            }
+        }
+        if res.is_empty() { "-".to_string() } else { res.join(";") }
+    })
+}
+
+// ───────────────────────── dispatch ─────────────────────────
+
+pub fn run(toks: &[&str]) -> String {
+    match toks.first().copied() {
+        Some("hash") if toks.len() == 2 => run_hash(toks[1]),
+        Some("bt") if toks.len() == 2 => run_bt::<i64>(toks[1]),
+        Some("btf") if toks.len() == 2 => run_bt::<OrderedFloat>(toks[1]),
+        Some("trie") if toks.len() == 3 => run_trie(toks[1], toks[2]),
+        Some("lf") if toks.len() == 3 => run_lf(toks[1], toks[2]),
+        Some("lf2") if toks.len() == 2 => run_lf2(toks[1]),
+        _ => "bad-op".to_string(),
+    }
+}
+
+// ───────────────────────── generation ─────────────────────────
+
+const P0: u64 = 0;
+const N0: u64 = 9223372036854775808;
+const PINF: u64 = 9218868437227405312;
+const NINF: u64 = 18442240474082181120;
+const NAN1: u64 = 9221120237041090560;
+const NAN2: u64 = 18444492273895866369;
+const ONE: u64 = 4607182418800017408;
+const MONE: u64 = 13830554455654793216;
+const SUB1: u64 = 1;
+const UMAX: u64 = u64::MAX;
+
+fn is_nan_bits(b: u64) -> bool {
+    f64::from_bits(b).is_nan()
+}
+
+fn fixed_lines() -> Vec<String> {
+    let mut v: Vec<String> = Vec::new();
+    let mut p = |s: String| v.push(format!("idx {}", s));
+    // hash
+    p("hash -".into());
+    p("hash l,e,g1,c1,r1,x,l,e".into());
+    p("hash i1:10,i1:11,g1,l,r2".into());
+    p("hash i5:1,r5,r5,g5,c5,i5:2,c5,l".into());
+    p(format!("hash i0:0,i{m}:{m},g0,g{m},c0,c{m},l,r0,r0,l,r{m},e", m = UMAX));
+    p("hash i1:1,i2:2,i3:3,x,l,e,g1,i1:5,g1,l,r1,e".into());
+    p(format!("hash i7:{m},i7:0,i7:7,g7,l", m = UMAX));
+    // bt basics
+    p("bt -".into());
+    p("bt l,e,m,M,g0,r0,c0,Ru_u,x,m,l".into());
+    p("bt i1:10,i1:11,g1,l,r2,m,M".into());
+    p("bt i5:1,r5,r5,g5,c5,i5:2,c5,l,m".into());
+    p(format!(
+        "bt i{lo}:1,i{hi}:2,i0:3,m,M,Ru_u,Ri{lo}_i{hi},Re{lo}_e{hi},Re{lo}_u,Ru_e{hi},g{lo},c{hi},r{lo},m,r{hi},M",
+        lo = i64::MIN,
+        hi = i64::MAX
+    ));
+    p("bt i1:1,i2:2,x,l,e,m,M,Ru_u,i3:3,i1:4,Ru_u,M,x,x,l".into());
+    // every bound shape on a 5-entry tree: bounds on keys, between keys, outside
+    p("bt i1:10,i3:30,i5:50,i7:70,i9:90,Ri3_e7,Ri3_i7,Ri3_u,Ru_e7,Ru_i7,Ru_u,Re3_e7,Re3_i7,Re3_u".into());
+    p("bt i1:10,i3:30,i5:50,i7:70,i9:90,Ri2_e8,Ri2_i8,Ri4_u,Ru_e6,Ru_i6,Re2_e8,Re2_i8,Re4_u,Ri10_u,Ru_e1,Ru_i0,Re9_u,Ru_i9,Re0_e10,Ri-3_i-1,Re8_e9,Re4_e5".into());
+    // inverted and equal bounds in the four index states
+    let inv = "Ri5_i3,Ri5_e3,Re5_e3,Re5_i3,Ri3_i3,Ri3_e3,Re3_i3,Re3_e3,Ri4_i4,Ri4_e4,Re4_i4,Re4_e4,Ri4_i2,Re6_e4,l,Ru_u";
+    p(format!("bt i1:10,i3:30,i5:50,{}", inv));
+    p(format!("bt {}", inv));
+    p(format!("bt i1:10,i3:30,i5:50,r1,r3,r5,l,e,{}", inv));
+    p(format!("bt i1:10,i3:30,i5:50,x,l,e,{}", inv));
+    p(format!("bt i3:30,r3,{},i3:31,{}", inv, inv));
+    p(format!("bt i3:30,x,{},i3:31,{}", inv, inv));
+    p(format!("bt i3:30,r9,{}", inv));
+    // a multi-level tree emptied by removes, then the same ranges
+    {
+        let mut ops: Vec<String> = Vec::new();
+        for k in 1..=40 {
+            ops.push(format!("i{}:{}", k, k * 10));
+        }
+        ops.push("l".into());
+        ops.push("Ri10_e15".into());
+        ops.push("Ri15_i10".into());
+        ops.push("Re12_e12".into());
+        for k in 1..=40 {
+            ops.push(format!("r{}", (k * 7) % 41));
+        }
+        ops.push("l".into());
+        ops.push("e".into());
+        ops.push("m".into());
+        ops.push(inv.to_string());
+        p(format!("bt {}", ops.join(",")));
+    }
+    // btf
+    p("btf -".into());
+    p("btf l,e,m,M,Ru_u,g0,x".into());
+    p(format!("btf i{P0}:1,i{N0}:2,g{P0},g{N0},c{N0},l,Ru_u,m,M,r{N0},l"));
+    p(format!("btf i{N0}:2,i{P0}:1,g{P0},g{N0},l,Ru_u,Ri{P0}_i{N0},Ri{N0}_e{P0},Re{P0}_e{N0},Re{N0}_i{P0}"));
+    p(format!(
+        "btf i{PINF}:1,i{NINF}:2,i{ONE}:3,i{MONE}:4,i{SUB1}:5,i{P0}:6,l,Ru_u,m,M,Ri{NINF}_i{PINF},Re{NINF}_e{PINF},Ri{N0}_i{SUB1},Re{P0}_e{ONE},Ri{ONE}_i{MONE},Ri{PINF}_e{NINF},Re{ONE}_e{ONE},Ri{PINF}_u,Ru_e{NINF},Ru_i{NINF}"
+    ));
+    // NaN first, then others
+    p(format!("btf i{NAN1}:1,i{ONE}:2,i{MONE}:3,i{P0}:4,i{PINF}:5,l,Ru_u,g{NAN1},c{NAN1},g{ONE},g{MONE},g{P0},g{PINF},m,M"));
+    // others, then NaN
+    p(format!("btf i{ONE}:2,i{MONE}:3,i{P0}:4,i{PINF}:5,i{NAN1}:1,l,Ru_u,g{NAN1},c{NAN1},g{ONE},g{MONE},g{P0},g{PINF},m,M,r{NAN1},l,Ru_u,r{NAN1},l,Ru_u"));
+    p(format!("btf i{MONE}:3,i{ONE}:2,i{NAN2}:1,l,Ru_u,i{NAN1}:7,l,Ru_u,g{MONE},g{ONE},g{NAN2}"));
+    // NaN alone
+    p(format!("btf i{NAN1}:1,i{NAN2}:2,l,g{NAN1},g{NAN2},g{ONE},c{P0},c{NINF},i{ONE}:3,l,Ru_u,r{MONE},l,Ru_u"));
+    // get / remove / contains NaN on a NaN-free index
+    p(format!("btf i{MONE}:1,i{P0}:2,i{ONE}:3,g{NAN1},c{NAN1},c{NAN2},g{NAN2},r{NAN1},l,Ru_u,r{NAN2},l,Ru_u,r{NAN1},l,e"));
+    p(format!("btf g{NAN1},c{NAN1},r{NAN1},l,i{NAN1}:1,r{NAN2},l"));
+    // ranges with NaN bounds
+    p(format!(
+        "btf i{MONE}:1,i{P0}:2,i{ONE}:3,Ri{NAN1}_u,Ru_i{NAN1},Ru_e{NAN1},Re{NAN1}_u,Ri{NAN1}_i{NAN1},Ri{NAN1}_e{NAN1},Re{NAN1}_i{NAN1},Re{NAN1}_e{NAN1},Re{NAN1}_e{ONE},Re{MONE}_e{NAN2},Ri{ONE}_i{NAN1},Ri{NAN1}_i{MONE},Ri{NAN1}_i{NAN2},Ri{NAN2}_e{P0}"
+    ));
+    p(format!("btf Ri{NAN1}_u,Ru_e{NAN1},Re{NAN1}_e{NAN1},Ri{NAN1}_e{NAN1},Re{NAN1}_e{ONE},l"));
+    p(format!("btf i{MONE}:1,i{NAN1}:9,i{ONE}:3,Ru_u,Ri{NAN1}_i{NAN1},Ri{P0}_u,Ru_i{P0},Ri{MONE}_i{ONE},Re{MONE}_e{ONE},Ri{NAN2}_u,Ru_e{NAN2},m,M"));
+    p(format!("btf i{P0}:1,r{P0},Re{NAN1}_e{ONE},Ri{ONE}_i{MONE},Ri{NAN1}_i{MONE},x,Re{NAN1}_e{ONE},Ri{ONE}_i{MONE}"));
+    // trie
+    p("trie - l;z;g;g1;k;k1;w/k.v.n.k.s0.v.o;w1/k;w/".into());
+    p("trie - -".into());
+    p("trie =5 l;z;g;k;g0;k0;w/k.v.o.k".into());
+    p("trie =5;=6;=5 l;g;k;z".into());
+    p("trie 1.2=7;1.2=8;1.2=7;E1.2=9 l;g1.2;g1;g;k;k1;k1.2;k1.2.3".into());
+    p("trie 1.2.3=1;1.2.4=2;1.5.3=3;2.2.3=4;1=5;1.2=6 l;g1;g1.2;g1.2.3;g1.2.9;g9;g2;k;k1;k1.2;k1.2.3;k1.2.3.4;k3;w/k.o.k.o.k.o.k.v.o.k;w/n.k.o.k.o.k.n.k;w/o.n.o.k".into());
+    p("trie 2=0;4=1;6=2 w/s0.k;w/s2.k;w/s3.k;w/s4.k;w/s5.k;w/s6.k;w/s7.k.v;w/s7.s1.k.n.v.s7;w/n.n.n.k.v.n.s0.k.s9;w/n.n.n.o.k;w/s6.n.o;w/s4.s2.k.s4.k;w/s18446744073709551615.k.v;w/n.s2.k.n.s6.k.n.n".into());
+    p("trie 18446744073709551615.0=18446744073709551615;0.18446744073709551615=0 l;k;k0;k18446744073709551615;g18446744073709551615.0;g0.18446744073709551615;w/s18446744073709551615.k.o.k.n;w/s1.k".into());
+    p("trie E1.2=0;E1.3=1;E2.3=2 l;z;k;k1;k2;k3;g1.3;g1;w/o.n.k.v.n.v.k;w/n.o.k.s3.k.s4.v".into());
+    p("trie 1.2=0 w9/k;w1.2/k.v.n.s0.o.k;w1/k.o.k.o.k;w1.2.3/k;k1.2;k9".into());
+    p("trie 3=1;1=2;2=3;1=4;3.3=5 k;g1;g3;k3;l;w/k.n.k.n.k.n.k.n".into());
+    // leapfrog
+    p("lf none a".into());
+    p("lf none knk".into());
+    p("lf - a".into());
+    p("lf - knkn".into());
+    p("lf -;- a".into());
+    p("lf 1,3,5 a".into());
+    p("lf 1,3,5 knknknknkn".into());
+    p("lf 7 knkn".into());
+    p("lf 1,2,3;-;2,3 a".into());
+    p("lf -;1,2,3 knk".into());
+    p("lf 1,3,5;2,4,6 a".into());
+    p("lf 1,3,5;2,4,6 knkn".into());
+    p("lf 1,2,3;4,5,6 a".into());
+    p("lf 1,2,3;1,2,3;1,2,3 a".into());
+    p("lf 1,2,3;1,2,3 knknknknk".into());
+    p("lf 1,2,3,4,5,6;2,4,6;4 a".into());
+    p("lf 4;2,4,6;1,2,3,4,5,6 knknk".into());
+    p(format!("lf 0,{m};{m};5,{m} a", m = UMAX));
+    p(format!("lf 0,{m};0,{m} knknknk", m = UMAX));
+    p(format!("lf {m} a", m = UMAX));
+    p("lf 5,3,3,1,5;3,5,5,7 a".into());
+    p("lf 9,1,9,1;1,9;9,9,9,1 knknkn".into());
+    p("lf 1,2,3,7,8;2,3,4,8;0,2,3,8,9 knknknknk".into());
+    p("lf 1,5,9;2,5,8;3,5,7;4,5,6;5 a".into());
+    p("lf 0,1;1,2;2,0 a".into());
+    // two-level trie join
+    p("lf2 -".into());
+    p("lf2 -|-".into());
+    p("lf2 1.2".into());
+    p("lf2 1.2;1.3;2.3|1.2;1.3;2.3".into());
+    p("lf2 1.2;1.3;2.3|1.3;2.3;3.1|-".into());
+    p("lf2 1.2;1.3;2.3|1.3;2.3;3.1".into());
+    p("lf2 0.1;0.2;1.2;2.0|0.2;0.1;1.0;2.0|0.2;2.0;2.1".into());
+    p("lf2 0.1;1.2;2.0|1.2;2.0;0.1|2.0;0.1;1.2".into());
+    p("lf2 1.1;1.1;2.2|1.1;2.3;2.2".into());
+    p(format!("lf2 {m}.{m};0.0|{m}.{m};0.1", m = UMAX));
+    // (unparseable op lines are not generated: check.py counts an op the model driver rejects
+    //  as a disagreement; `run` answers them with `bad-op`, as `gdriver` does)
+    v
+}
+
+fn pick_op_letter(r: &mut Rng, ordered: bool) -> char {
+    let x = r.below(100);
+    if !ordered {
+        return match x {
+            0..=39 => 'i',
+            40..=59 => 'r',
+            60..=77 => 'g',
+            78..=87 => 'c',
+            88..=93 => 'l',
+            94..=97 => 'e',
+            _ => 'x',
+        };
+    }
+    match x {
+        0..=29 => 'i',
+        30..=43 => 'r',
+        44..=52 => 'g',
+        53..=57 => 'c',
+        58..=61 => 'l',
+        62..=64 => 'e',
+        65..=66 => 'x',
+        67..=70 => 'm',
+        71..=74 => 'M',
+        _ => 'R',
+    }
+}
+
+fn gen_hash(r: &mut Rng) -> String {
+    let u = r.range(8, 20);
+    let base = if r.chance(1, 6) { UMAX - u } else { r.below(3) * 100 };
+    let n = if r.chance(1, 12) { r.range(60, 150) } else { r.range(0, 40) };
+    if n == 0 {
+        return "idx hash -".to_string();
+    }
+    let mut ops: Vec<String> = Vec::new();
+    for _ in 0..n {
+        let k = if r.chance(1, 25) { *r.pick(&[0u64, UMAX, UMAX - 1, 1u64 << 63]) } else { base + r.below(u + 1) };
+        let op = match pick_op_letter(r, false) {
+            'i' => {
+                let v = if r.chance(1, 20) { UMAX } else { r.below(1000) };
+                format!("i{}:{}", k, v)
+            }
+            'r' => format!("r{}", k),
+            'g' => format!("g{}", k),
+            'c' => format!("c{}", k),
+            c => c.to_string(),
+        };
+        ops.push(op);
+    }
+    format!("idx hash {}", ops.join(","))
+}
+
+fn gen_bound_shape(r: &mut Rng) -> u8 {
+    // 0 = u, 1 = i, 2 = e
+    match r.below(10) {
+        0..=1 => 0,
+        2..=5 => 1,
+        _ => 2,
+    }
+}
+
+fn gen_bt(r: &mut Rng) -> String {
+    let big = r.chance(1, 10);
+    let u: i64 = if big { r.range(150, 320) as i64 } else { r.range(8, 20) as i64 };
+    let base: i64 = match r.below(8) {
+        0 => i64::MIN + 1,
+        1 => i64::MAX - u - 1,
+        2 => 0,
+        _ => -(u / 2),
+    };
+    let n = if big { r.range(20, 60) } else { r.range(0, 40) };
+    let mut ops: Vec<String> = Vec::new();
+    if big {
+        let m = r.range(80, 200);
+        for _ in 0..m {
+            let k = base + r.below(u as u64) as i64;
+            ops.push(format!("i{}:{}", k, r.below(1000)));
+        }
+    }
+    for _ in 0..n {
+        let mut key = |r: &mut Rng| -> i64 {
+            if r.chance(1, 25) {
+                *r.pick(&[i64::MIN, i64::MAX, 0i64, -1i64])
+            } else {
+                base + r.below(u as u64) as i64
+            }
+        };
+        let op = match pick_op_letter(r, true) {
+            'i' => format!("i{}:{}", key(r), r.below(1000)),
+            'r' => format!("r{}", key(r)),
+            'g' => format!("g{}", key(r)),
+            'c' => format!("c{}", key(r)),
+            'R' => {
+                // bounds from the key universe ±1
+                let mut bk = |r: &mut Rng| -> i64 { (base - 1) + r.below(u as u64 + 2) as i64 };
+                let (mut a, mut b) = (bk(r), bk(r));
+                if r.chance(1, 30) {
+                    a = i64::MIN;
+                }
+                if r.chance(1, 30) {
+                    b = i64::MAX;
+                }
+                let (mut sl, mut sh) = (gen_bound_shape(r), gen_bound_shape(r));
+                if r.chance(1, 4) {
+                    // inverted or equal-with-exclusion
+                    sl = 1 + r.below(2) as u8;
+                    sh = 1 + r.below(2) as u8;
+                    if r.chance(1, 2) {
+                        b = a;
+                        if r.chance(2, 3) {
+                            sl = 2;
+                            sh = 2;
+                        }
+                    } else {
+                        let (lo, hi) = (a.min(b), a.max(b));
+                        a = hi;
+                        b = lo;
+                    }
+                } else if a > b {
+                    std::mem::swap(&mut a, &mut b);
+                }
+                let sb = |s: u8, k: i64| match s {
+                    0 => "u".to_string(),
+                    1 => format!("i{}", k),
+                    _ => format!("e{}", k),
+                };
+                format!("R{}_{}", sb(sl, a), sb(sh, b))
+            }
+            c => c.to_string(),
+        };
+        ops.push(op);
+    }
+    if ops.is_empty() {
+        return "idx bt -".to_string();
+    }
+    format!("idx bt {}", ops.join(","))
+}
+
+fn gen_btf(r: &mut Rng) -> String {
+    let with_nan = r.chance(1, 2);
+    let mut pool: Vec<u64> = vec![
+        P0,
+        N0,
+        PINF,
+        NINF,
+        ONE,
+        MONE,
+        SUB1,
+        (2.0f64).to_bits(),
+        (0.5f64).to_bits(),
+        (-2.5f64).to_bits(),
+    ];
+    if with_nan {
+        pool.push(NAN1);
+        pool.push(NAN2);
+    } else {
+        // NaN-free programs may be larger: widen the universe with small integers
+        for i in -8i64..=8 {
+            pool.push((i as f64 * 1.5).to_bits());
+        }
+        pool.push(f64::MAX.to_bits());
+        pool.push(f64::MIN.to_bits());
+        pool.push((1u64 << 63) | 1); // negative subnormal
+    }
+    let n = if with_nan { r.range(0, 30) } else { r.range(0, 45) };
+    let mut inserts = 0usize;
+    let mut ops: Vec<String> = Vec::new();
+    for _ in 0..n {
+        let mut letter = pick_op_letter(r, true);
+        if with_nan && letter == 'i' && inserts >= 11 {
+            letter = 'g';
+        }
+        let op = match letter {
+            'i' => {
+                inserts += 1;
+                format!("i{}:{}", r.pick(&pool), r.below(1000))
+            }
+            'r' => format!("r{}", r.pick(&pool)),
+            'g' => format!("g{}", r.pick(&pool)),
+            'c' => format!("c{}", r.pick(&pool)),
+            'R' => {
+                let (mut a, mut b) = (*r.pick(&pool), *r.pick(&pool));
+                let (fa, fb) = (f64::from_bits(a), f64::from_bits(b));
+                let (mut sl, mut sh) = (gen_bound_shape(r), gen_bound_shape(r));
+                if r.chance(1, 4) {
+                    sl = 1 + r.below(2) as u8;
+                    sh = 1 + r.below(2) as u8;
+                    if r.chance(1, 2) {
+                        b = a;
+                    } else if fa < fb {
+                        std::mem::swap(&mut a, &mut b);
+                    }
+                } else if fa > fb {
+                    std::mem::swap(&mut a, &mut b);
+                }
+                let sb = |s: u8, k: u64| match s {
+                    0 => "u".to_string(),
+                    1 => format!("i{}", k),
+                    _ => format!("e{}", k),
+                };
+                format!("R{}_{}", sb(sl, a), sb(sh, b))
+            }
+            c => c.to_string(),
+        };
+        ops.push(op);
+    }
+    if ops.is_empty() {
+        return "idx btf -".to_string();
+    }
+    format!("idx btf {}", ops.join(","))
+}
+
+fn gen_node(r: &mut Rng) -> u64 {
+    if r.chance(1, 40) { *r.pick(&[UMAX, UMAX - 1, 1u64 << 40]) } else { r.below(7) }
+}
+
+fn path_str(p: &[u64]) -> String {
+    p.iter().map(|x| x.to_string()).collect::<Vec<_>>().join(".")
+}
+
+fn gen_trie(r: &mut Rng) -> String {
+    let ni = r.range(0, 25);
+    let mut paths: Vec<Vec<u64>> = Vec::new();
+    let mut ins: Vec<String> = Vec::new();
+    for i in 0..ni {
+        let eid = if r.chance(1, 3) { r.below(4) } else { i };
+        if r.chance(1, 4) {
+            let (a, b) = (gen_node(r), gen_node(r));
+            ins.push(format!("E{}.{}={}", a, b, eid));
+            paths.push(vec![a, b]);
+        } else {
+            let len = match r.below(10) {
+                0 => 0,
+                1..=3 => 1,
+                4..=7 => 2,
+                _ => 3,
+            };
+            let p: Vec<u64> = if !paths.is_empty() && r.chance(1, 4) {
+                // share a prefix with / duplicate an earlier path
+                let q = r.pick(&paths).clone();
+                let keep = r.below(q.len() as u64 + 1) as usize;
+                let mut p = q[..keep].to_vec();
+                while p.len() < len {
+                    p.push(gen_node(r));
+                }
+                p
+            } else {
+                (0..len).map(|_| gen_node(r)).collect()
+            };
+            ins.push(format!("{}={}", path_str(&p), eid));
+            paths.push(p);
+        }
+    }
+    let mut qpath = |r: &mut Rng| -> Vec<u64> {
+        if !paths.is_empty() && r.chance(3, 5) {
+            let q = r.pick(&paths).clone();
+            let keep = r.below(q.len() as u64 + 1) as usize;
+            let mut p = q[..keep].to_vec();
+            if r.chance(1, 6) {
+                p.push(gen_node(r));
+            }
+            p
+        } else {
+            let len = r.below(4);
+            (0..len).map(|_| gen_node(r)).collect()
+        }
+    };
+    let nq = r.range(1, 8);
+    let mut qs: Vec<String> = Vec::new();
+    for _ in 0..nq {
+        let q = match r.below(20) {
+            0 => "l".to_string(),
+            1 => "z".to_string(),
+            2..=6 => format!("g{}", path_str(&qpath(r))),
+            7..=11 => format!("k{}", path_str(&qpath(r))),
+            _ => {
+                let mut p = qpath(r);
+                if r.chance(1, 2) {
+                    p.truncate(r.below(2) as usize);
+                }
+                let ns = r.range(0, 10);
+                let steps: Vec<String> = (0..ns)
+                    .map(|_| match r.below(20) {
+                        0..=4 => "n".to_string(),
+                        5..=9 => format!("s{}", if r.chance(1, 15) { UMAX } else { r.below(8) }),
+                        10..=14 => "k".to_string(),
+                        15..=16 => "v".to_string(),
+                        _ => "o".to_string(),
+                    })
+                    .collect();
+                format!("w{}/{}", path_str(&p), steps.join("."))
+            }
+        };
+        qs.push(q);
+    }
+    let ins = if ins.is_empty() { "-".to_string() } else { ins.join(";") };
+    format!("idx trie {} {}", ins, qs.join(";"))
+}
+
+fn gen_lf(r: &mut Rng) -> String {
+    let nl = if r.chance(1, 20) { 0 } else { r.range(1, 5) };
+    let lists = if nl == 0 {
+        "none".to_string()
+    } else {
+        // a few keys common to all lists make non-empty intersections frequent
+        let nc = r.below(4);
+        let common: Vec<u64> = (0..nc).map(|_| if r.chance(1, 20) { UMAX } else { r.below(16) }).collect();
+        (0..nl)
+            .map(|_| {
+                let n = r.range(0, 12);
+                let mut l: Vec<u64> = (0..n).map(|_| if r.chance(1, 40) { UMAX } else { r.below(16) }).collect();
+                if n > 0 || r.chance(1, 2) {
+                    if r.chance(4, 5) {
+                        for c in &common {
+                            let at = r.below(l.len() as u64 + 1) as usize;
+                            l.insert(at, *c);
+                        }
+                    }
+                }
+                if l.is_empty() { "-".to_string() } else { util::join(&l) }
+            })
+            .collect::<Vec<_>>()
+            .join(";")
+    };
+    let prog = if r.chance(7, 10) {
+        "a".to_string()
+    } else {
+        let n = r.range(1, 14);
+        (0..n).map(|_| if r.chance(1, 2) { 'k' } else { 'n' }).collect()
+    };
+    format!("idx lf {} {}", lists, prog)
+}
+
+fn gen_lf2(r: &mut Rng) -> String {
+    let nt = r.range(2, 3);
+    let dense = r.chance(1, 2);
+    let tries: Vec<String> = (0..nt)
+        .map(|_| {
+            let n = if dense { r.range(6, 15) } else { r.range(0, 15) };
+            if n == 0 {
+                "-".to_string()
+            } else {
+                (0..n).map(|_| format!("{}.{}", r.below(6), r.below(6))).collect::<Vec<_>>().join(";")
+            }
+        })
+        .collect();
+    format!("idx lf2 {}", tries.join("|"))
+}
+
+fn gen_malformed(r: &mut Rng) -> String {
+    let k = r.below(20);
+    let t: String = match r.below(16) {
+        0 => format!("hash q{}", k),
+        1 => format!("bt i{}", k),
+        2 => format!("bt ix:{}", k),
+        3 => "hash".to_string(),
+        4 => format!("trie {}.2=0", k),
+        5 => format!("lf 1,{}", k),
+        6 => format!("lf 1,a;{} a", k),
+        7 => "lf2".to_string(),
+        8 => format!("btf R{}_2", k),
+        9 => format!("hash i{}:1,Ru_u", k),
+        10 => format!("trie 1=x;{}=0 l", k),
+        11 => format!("trie {}=1 q", k),
+        12 => format!("lf {} kx", k),
+        13 => format!("bt i{}:1,Ri1_", k),
+        14 => format!("lf2 {}.1;2", k),
+        _ => format!("bt i{}:-1", k),
+    };
+    format!("idx {}", t)
+}
+
+pub fn generate(seed: u64, cases: usize, out: &mut Vec<String>) {
+    let mut r = Rng::new(seed ^ 0x1D8_1DE5);
+    let start = out.len();
+    out.push(format!("# case 0 seed {}", seed));
+    out.extend(fixed_lines());
+    for n in 1..=cases {
+        out.push(format!("# case {} seed {}", n, seed));
+        let lines = r.range(6, 10);
+        for _ in 0..lines {
+            if r.chance(3, 100) {
+                let _ = gen_malformed(&mut r); // drawn but not emitted, see fixed_lines()
+                continue;
+            }
+            let l = match r.below(20) {
+                0..=3 => gen_hash(&mut r),
+                4..=8 => gen_bt(&mut r),
+                9..=11 => gen_btf(&mut r),
+                12..=14 => gen_trie(&mut r),
+                15..=17 => gen_lf(&mut r),
+                _ => gen_lf2(&mut r),
+            };
+            out.push(l);
+        }
+    }
+    if std::env::var("VH_STATS").map(|v| v == "1").unwrap_or(false) {
+        stats(&out[start..]);
+    }
+}
+
+// ───────────────────────── statistics (VH_STATS=1) ─────────────────────────
+
+fn bump(m: &mut BTreeMap<String, usize>, k: &str) {
+    *m.entry(k.to_string()).or_insert(0) += 1;
+}
+
+fn stat_prog<K: Key + PartialOrd>(
+    kind: &str,
+    prog: &str,
+    ordered: bool,
+    ops: &mut BTreeMap<String, usize>,
+    shapes: &mut BTreeMap<String, (usize, usize, usize)>,
+) -> bool {
+    let p: Vec<Op<K>> = match p_prog(prog, ordered) {
+        Some(p) => p,
+        None => return false,
+    };
+    for op in &p {
+        let l = match op {
+            Op::Ins(..) => "i",
+            Op::Rem(..) => "r",
+            Op::Get(..) => "g",
+            Op::Has(..) => "c",
+            Op::Len => "l",
+            Op::Empty => "e",
+            Op::Clear => "x",
+            Op::Min => "m",
+            Op::Max => "M",
+            Op::Range(..) => "R",
+        };
+        bump(ops, &format!("{}.{}", kind, l));
+        if let Op::Range(lo, hi) = op {
+            let sh = |b: &Bd<K>| match b {
+                Bd::U => 'u',
+                Bd::I(_) => 'i',
+                Bd::E(_) => 'e',
+            };
+            let e = shapes.entry(format!("{}.({},{})", kind, sh(lo), sh(hi))).or_insert((0, 0, 0));
+            e.0 += 1;
+            let kk = |b: &Bd<K>| match b {
+                Bd::U => None,
+                Bd::I(k) | Bd::E(k) => Some(k.clone()),
+            };
+            if let (Some(a), Some(b)) = (kk(lo), kk(hi)) {
+                if a > b {
+                    e.1 += 1;
+                } else if a == b && matches!(lo, Bd::E(_)) && matches!(hi, Bd::E(_)) {
+                    e.2 += 1;
+                }
+            }
+        }
+    }
+    true
+}
+
+fn stats(lines: &[String]) {
+    let mut kinds: BTreeMap<String, usize> = BTreeMap::new();
+    let mut ops: BTreeMap<String, usize> = BTreeMap::new();
+    let mut shapes: BTreeMap<String, (usize, usize, usize)> = BTreeMap::new();
+    for line in lines {
+        if line.starts_with('#') {
+            continue;
+        }
+        let toks: Vec<&str> = line.split_whitespace().collect();
+        let t = &toks[1..];
+        let ok = match t.first().copied() {
+            Some("hash") if t.len() == 2 => stat_prog::<u64>("hash", t[1], false, &mut ops, &mut shapes),
+            Some("bt") if t.len() == 2 => stat_prog::<i64>("bt", t[1], true, &mut ops, &mut shapes),
+            Some("btf") if t.len() == 2 => stat_prog::<OrderedFloat>("btf", t[1], true, &mut ops, &mut shapes),
+            Some("trie") if t.len() == 3 => match (p_tins(t[1]), p_tqs(t[2])) {
+                (Some(ins), Some(qs)) => {
+                    for i in &ins {
+                        bump(&mut ops, if matches!(i, TIns::Edge(..)) { "trie.insert_edge" } else { "trie.insert" });
+                    }
+                    for q in &qs {
+                        match q {
+                            TQ::Len => bump(&mut ops, "trie.l"),
+                            TQ::Empty => bump(&mut ops, "trie.z"),
+                            TQ::Get(_) => bump(&mut ops, "trie.g"),
+                            TQ::Keys(_) => bump(&mut ops, "trie.k"),
+                            TQ::Walk(_, st) => {
+                                bump(&mut ops, "trie.w");
+                                for s in st {
+                                    bump(
+                                        &mut ops,
+                                        match s {
+                                            Step::Next => "walk.n",
+                                            Step::Seek(_) => "walk.s",
+                                            Step::Key => "walk.k",
+                                            Step::Valid => "walk.v",
+                                            Step::Open => "walk.o",
+                                        },
+                                    );
+                                }
+                            }
+                        }
+                    }
+                    true
+                }
+                _ => false,
+            },
+            Some("lf") if t.len() == 3 => {
+                if p_lists(t[1]).is_some() && (t[2] == "a" || t[2].bytes().all(|b| b == b'k' || b == b'n')) {
+                    if t[2] == "a" {
+                        bump(&mut ops, "lf.a");
+                    } else {
+                        for c in t[2].chars() {
+                            bump(&mut ops, &format!("lf.{}", c));
+                        }
+                    }
+                    true
+                } else {
+                    false
+                }
+            }
+            Some("lf2") if t.len() == 2 => p_lf2(t[1]).is_some(),
+            _ => false,
+        };
+        if ok {
+            bump(&mut kinds, t[0]);
+        } else {
+            bump(&mut kinds, "(malformed)");
+        }
+    }
+    eprintln!("idx stats: lines per kind");
+    for (k, n) in &kinds {
+        eprintln!("  {:<14} {}", k, n);
+    }
+    eprintln!("idx stats: ops per letter");
+    for (k, n) in &ops {
+        eprintln!("  {:<18} {}", k, n);
+    }
+    eprintln!("idx stats: range ops per bound shape (total / inverted / equal-both-excluded)");
+    for (k, (n, inv, eqx)) in &shapes {
+        eprintln!("  {:<12} {} / {} / {}", k, n, inv, eqx);
+    }
 }
